@@ -151,6 +151,11 @@ Fixpoint profile_offsets (start : Z) (segs : list segment) : list Z * list (Z * 
       let '(o, u) := profile_offsets (start + dur) r in (o, (start, dur) :: u)
   end.
 
+(* The discard_overflow option as the CLI config reader must deliver it: the written value
+   (a literal, or a placeholder that resolves to a literal), true when the key is absent. *)
+Definition configured_discard (written : option bool) : bool :=
+  match written with Some b => b | None => true end.
+
 (* The variant the correspondence run and the theorems are about: the tree as it is now. *)
 Definition wcurrent : wvariant := wfixed.
 
